@@ -83,6 +83,23 @@ def run(ctx):
             ctx.violation(f"a point with only {dim-1} coordinates is accepted although get_dimension() = {dim}", req, observed=sh.get("status"))
         if {k: exa.get(k) for k in ("status", "k", "u", "v", "jac")} != {k: a.get(k) for k in ("status", "k", "u", "v", "jac")}:
             ctx.violation("coordinates beyond get_dimension() change the result", req, expected={k: exa.get(k) for k in ("k", "u", "v", "jac")}, observed={k: a.get(k) for k in ("k", "u", "v", "jac")})
+    # a signature with FEWER columns than the graph has loops (the public API accepts it): the number of coordinates a sample reads is
+    # still get_dimension(), a function of the graph alone
+    nsel = [(s, d) for s, d in zip(ss, dims) if s["routing"]["L"] >= 2 and s["impl"].get("status") == "ok"][: (10 if ctx.quick else 60)]
+    nreq = [dict(s["req"], sig=[row[:-1] for row in s["req"]["sig"]]) for s, d in nsel]
+    nlong = run_harness(nreq)
+    nexact = run_harness([dict(r, x=r["x"][: d]) for r, (s, d) in zip(nreq, nsel)])
+    nshort = run_harness([dict(r, x=r["x"][: d - 1]) for r, (s, d) in zip(nreq, nsel)])
+    for r, (s, d), lo, exa, sh in zip(nreq, nsel, nlong, nexact, nshort):
+        ctx.case(["narrow_signature", r["sig"], r["x"][:4]], nontrivial=True); ctx.count(f"narrow_signature.{lo.get('status')}")
+        req = dict(S.small_req(s), sig=r["sig"])
+        if lo.get("dimension") is not None and lo.get("dimension") != d:
+            ctx.violation(f"get_dimension() = {lo.get('dimension')} for a signature with {len(r['sig'][0])} columns; the graph gives {d}", req, expected=d, observed=lo.get("dimension")); continue
+        if lo.get("status") != exa.get("status") or (lo.get("status") == "ok" and any(lo.get(k) != exa.get(k) for k in ("k", "u", "v", "jac"))):
+            ctx.violation("narrow signature: coordinates beyond get_dimension() change the outcome", req, expected=exa.get("status"), observed=lo.get("status")); continue
+        if lo.get("status") == "ok" and sh.get("status") != "panic":
+            ctx.violation(f"narrow signature: a point with only {d-1} coordinates is accepted although get_dimension() = {d} (fewer coordinates are read than the dimension says)",
+                          req, observed=sh.get("status"))
     # every coordinate influences the result (perturbation on the f64 code), none beyond the dimension does
     preqs, pinfo = [], []
     for si, (s, dim) in enumerate(zip(ss[: (8 if ctx.quick else 40)], dims)):
